@@ -140,6 +140,7 @@ int harness_main(void) {
   fiber_cond_init(&C);
   fmc_focus(&M, sizeof M);
   fmc_focus(&C, sizeof C);
+  rt_pin_begin();
   fmc_begin();
   // -Dallcfg=1: the configuration itself is an enumerated input: 1-2 waiters x signal/broadcast x
   // signaller holding the mutex or not x 0-1 early signals x a stray signaller or not (32 programs)
@@ -150,11 +151,12 @@ int harness_main(void) {
     early = fmc_input(2);
     if (fmc_input(2)) stray_on = 1;
   }
-  for (int i = 0; i < W + extra; i++) fiber_detach(fiber_create(STK, waiter, (void*)(intptr_t)i));
+  for (int i = 0; i < W + extra; i++) fiber_detach(rt_create(i, STK, waiter, (void*)(intptr_t)i));
   nsig = fmc_param("signallers", 1);
-  for (int i = 0; i < nsig; i++) fiber_detach(fiber_create(STK, signaller, (void*)(intptr_t)i));
-  if (fmc_param("stray", 0) || stray_on) fiber_detach(fiber_create(STK, stray, 0));
+  for (int i = 0; i < nsig; i++) fiber_detach(rt_create(W + extra + i, STK, signaller, (void*)(intptr_t)i));
+  if (fmc_param("stray", 0) || stray_on) fiber_detach(rt_create(W + extra + nsig, STK, stray, 0));
   if (fmc_param("noise", 0)) fiber_detach(fiber_create(STK, noise, (void*)(intptr_t)fmc_param("noise", 0)));
+  rt_pin_end();
   rt_park_until_quiescent(at_quiescence);
   return 0;
 }
